@@ -1,0 +1,18 @@
+//go:build verif
+
+package resolver
+
+import "net"
+
+// VerifNormalizeAddrs exports normalizeAddrs.
+func VerifNormalizeAddrs(addrs []string) ([]string, error) { return normalizeAddrs(addrs) }
+
+// VerifRotation returns the next n addresses the resolver would dial, in order.
+func VerifRotation(addrs []string, n int) []string {
+	r := &resolver{addrs: addrs, dialer: &net.Dialer{}}
+	out := make([]string, n)
+	for i := range out {
+		out[i] = r.address()
+	}
+	return out
+}
